@@ -1,7 +1,7 @@
 ---------------------------- MODULE MasterLagOps ----------------------------
 (* The steps of MasterLag.tla as pure successor functions on a state record  *)
 (*                                                                           *)
-(*   S = [store, m, dirty, evq, pub, phase, err]                             *)
+(*   S = [store, m, dirty, evq, aq, pub, phase, err]                         *)
 (*                                                                           *)
 (* shared by the model (MasterLag.tla: guards + S' = Do(S)) and by the trace  *)
 (* specification (MasterLagTrace.tla: the recorded step of the real Master    *)
@@ -17,7 +17,7 @@ S0 == [store |-> [pl |-> [s \in Srv |-> {}], rec |-> [s \in Srv |-> "data"], pre
                   sched |-> {}],
        m |-> [alive |-> TRUE, srv |-> Srv, cap |-> [s \in Srv |-> Cap], up |-> Srv, apps |-> {},
               placed |-> NoPl],
-       dirty |-> {}, evq |-> {}, pub |-> <<>>, phase |-> "idle", err |-> FALSE]
+       dirty |-> {}, evq |-> {}, aq |-> {}, pub |-> <<>>, phase |-> "idle", err |-> FALSE]
 
 ServersOf(st, a) == {s \in Srv : a \in st.pl[s]}
 OnSrv(mm, s) == {a \in App : mm.placed[a] = s}
@@ -36,6 +36,7 @@ EnvEnabled(S, ev, args) ==
     [] ev = "NodeUp" -> args[1] \notin S.store.pres /\ S.store.rec[args[1]] # "no"
     [] ev = "DeleteServer" -> S.store.rec[args[1]] # "no"
     [] ev = "CreateServer" -> S.store.rec[args[1]] = "no"
+    [] ev = "AppsEvent" -> args[1] \in S.store.sched
     [] OTHER -> FALSE
 
 EnvDo(S, ev, args) ==
@@ -50,6 +51,9 @@ EnvDo(S, ev, args) ==
                                         !.evq = @ \cup {args[1]}]
        (* masterapi.create_server: a record without capacity *)
     [] ev = "CreateServer" -> [S EXCEPT !.store.rec[args[1]] = "bare", !.evq = @ \cup {args[1]}]
+       (* masterapi.update_app_priorities: the manifest is rewritten, an `apps` *)
+       (* event names the instance (it may be deleted before the event is read) *)
+    [] ev = "AppsEvent" -> [S EXCEPT !.aq = @ \cup {args[1]}]
     [] OTHER -> S
 
 -----------------------------------------------------------------------------
@@ -117,6 +121,21 @@ DeliverPresenceDo(S) ==
 DeliverServersDo(S, s) ==
   LET r == Reload(S.m, S.store, s) IN
   [S EXCEPT !.m = r.m, !.store = r.st, !.evq = @ \ {s}]
+
+(* `apps` event naming a: load_app; a manifest that is gone meanwhile means    *)
+(* Master.remove_app - which withdraws the placement entry as well             *)
+DeliverAppsDo(S, a) ==
+  IF a \in S.store.sched \/ a \notin S.m.apps
+  THEN [S EXCEPT !.aq = @ \ {a},
+                 !.m.apps = IF a \in S.store.sched THEN @ \cup {a} ELSE @]
+  ELSE [S EXCEPT !.aq = @ \ {a},
+                 !.store.pl = IF "apps_event_no_unpublish" \in Defects THEN @
+                              ELSE [s \in Srv |-> S.store.pl[s] \ (IF S.m.placed[a] = s THEN {a} ELSE {})],
+                 !.m.apps = @ \ {a}, !.m.placed[a] = ""]
+
+RECURSIVE DeliverAllAppsDo(_, _)
+DeliverAllAppsDo(S, as) ==
+  IF as = <<>> THEN S ELSE DeliverAllAppsDo(DeliverAppsDo(S, Head(as)), Tail(as))
 
 RECURSIVE DeliverEventsDo(_, _)
 DeliverEventsDo(S, ss) ==
@@ -206,7 +225,7 @@ LoadModel(st) ==
 
 RestartDo(S) ==
   LET r == LoadModel(S.store) IN
-  [S EXCEPT !.m = r.m, !.pub = r.writes, !.dirty = {}, !.evq = {}, !.phase = "load"]
+  [S EXCEPT !.m = r.m, !.pub = r.writes, !.dirty = {}, !.evq = {}, !.aq = {}, !.phase = "load"]
 
 (* init_schedule against the store as it is when the publication starts *)
 InitWrites(st, mm, P) ==
